@@ -1,6 +1,292 @@
-//! Full-pipeline helpers (semantic analysis entry points).  Filled in with the model.
+//! Full-pipeline helpers: semantic analysis entry points, C03 (analysis returns normally),
+//! the gating half of C11 and the semantic half of C12.
 
 use crate::engine::*;
+use crate::layout::Style;
+use crate::modelgen::{Gen, Switches};
+use crate::synprops::print_program;
+use oq3_semantics::semantic_error::SemanticErrorList;
+use oq3_semantics::syntax_to_semantics::{parse_source_string, ParseResult};
+use oq3_source_file::{SourceString, SourceTrait};
+use serde_json::json;
 
-pub fn check_gating_source(_text: &str, _out: &mut Vec<Failure>) {}
-pub fn run_gating(_ctx: &RunCtx) {}
+pub type Analysis = ParseResult<SourceString>;
+
+pub fn analyze(text: &str) -> Result<Analysis, PanicInfo> {
+    guarded(|| parse_source_string(text, None))
+}
+
+pub fn clean_parse(text: &str) -> bool {
+    matches!(
+        guarded(|| {
+            let p = oq3_syntax::SourceFile::parse_check_lex(text);
+            p.have_parse() && p.errors().is_empty()
+        }),
+        Ok(true)
+    )
+}
+
+pub fn all_semantic_errors(l: &SemanticErrorList, out: &mut Vec<(String, usize, usize, std::path::PathBuf)>) {
+    for e in l.iter() {
+        let r = e.range();
+        out.push((format!("{:?}", e.kind()), r.start().into(), r.end().into(), l.source_file_path().clone()));
+    }
+    for inc in l.include_errors() {
+        all_semantic_errors(inc, out);
+    }
+}
+
+/// C03 oracle: analysis of a syntax-error-free program returns normally, results are readable,
+/// only the global scope is open.
+pub fn check_c03(text: &str, out: &mut Vec<Failure>) -> bool {
+    if !clean_parse(text) {
+        return false;
+    }
+    let detail = |actual: String| json!({"input": {"source": text}, "actual": actual});
+    match analyze(text) {
+        Err(p) => {
+            out.push(Failure::new(format!("C03:{}", panic_key(&p)), detail(format!("{}:{} {}", p.file, p.line, p.msg))));
+        }
+        Ok(res) => {
+            if res.any_syntax_errors() {
+                out.push(Failure::new("C03:syntax-errors-reported-for-clean-parse", detail(String::new())));
+            }
+            let r = guarded(|| {
+                let _ = format!("{:?}", res.program());
+                let _ = format!("{:?}", res.symbol_table());
+                let mut v = vec![];
+                all_semantic_errors(res.semantic_errors(), &mut v);
+                let _ = res.semantic_errors().len();
+                res.symbol_table().verif_scope_depth()
+            });
+            match r {
+                Err(p) => out.push(Failure::new(format!("C03:results-unreadable:{}", panic_key(&p)), detail(p.msg.clone()))),
+                Ok(depth) => {
+                    if depth != 1 {
+                        out.push(Failure::new("C03:scope-left-open", detail(format!("scope depth {depth} after analysis"))));
+                    }
+                }
+            }
+        }
+    }
+    true
+}
+
+pub fn replay_c03(v: &serde_json::Value) -> Result<Vec<Failure>, String> {
+    let text = v["input"]["source"].as_str().ok_or("no input.source")?;
+    let mut out = vec![];
+    check_c03(text, &mut out);
+    Ok(out)
+}
+
+pub fn run_c03(ctx: &RunCtx) {
+    ctx.set_rule("(a) generated programs of the supported subset with 0-3 injected semantic faults (semgen); (b) programs of the wider grammar: every statement and expression form the parser accepts, all operators in all operand positions, extreme literals, designators that are expressions/calls/negative/huge, shadowed built-ins; (c) mutated snippets and token soup filtered by the implementation itself to those with zero syntax diagnostics (yield reported). oracle: analysis returns under catch_unwind, program/symbol table/diagnostics are readable, scope depth is 1. non-trivial = zero syntax diagnostics and >=1 statement; distinct by text");
+    ctx.assume("'syntax-error-free' is decided by the implementation's own parse_check_lex: have_parse and no diagnostics");
+    // (b) wider grammar, syntactic generator with switches on (so that programs parse cleanly)
+    let n = ctx.pick(150_000u64, 10_000_000u64);
+    ctx.random("wide-program", n, 900, |src| {
+        let style = [Style::Minimal, Style::Spaced, Style::Wild][src.below(3)];
+        let mut g = Gen::new(src, Switches::all_on());
+        let prog = g.program(8);
+        let pr = print_program(src, &prog, style);
+        let mut rep = CaseReport::default();
+        let judged = check_c03(&pr.text, &mut rep.failures);
+        rep.discarded = !judged;
+        rep.class("wide-program");
+        rep.nontrivial = Some(fnv64(pr.text.as_bytes()));
+        rep.sample = Some(pr.text);
+        rep
+    });
+    // (a) semantic generator
+    crate::semprops::run_c03_semgen(ctx);
+    // extreme literal / designator templates
+    let templates = extreme_templates();
+    ctx.par_units(templates.len(), |i, st| {
+        let mut rep = CaseReport::default();
+        let judged = check_c03(&templates[i], &mut rep.failures);
+        rep.discarded = !judged;
+        rep.class("template");
+        rep.nontrivial = Some(fnv64(templates[i].as_bytes()));
+        if i % 37 == 0 {
+            rep.sample = Some(templates[i].clone());
+        }
+        ctx.eval_local("C03", st, rep);
+    });
+    // (c) filtered soup / mutants
+    let snippets = crate::textgen::load_snippets();
+    let n = ctx.pick(150_000u64, 10_000_000u64);
+    ctx.random("filtered-mutant", n, 24, |src| {
+        let mut rep = CaseReport::default();
+        if snippets.is_empty() {
+            rep.discarded = true;
+            return rep;
+        }
+        let s = &snippets[src.below(snippets.len())];
+        let text = crate::textgen::mutate(src, s);
+        let judged = check_c03(&text, &mut rep.failures);
+        rep.discarded = !judged;
+        rep.class("filtered-mutant");
+        if judged {
+            rep.nontrivial = Some(fnv64(text.as_bytes()));
+            rep.sample = Some(text);
+        }
+        rep
+    });
+    ctx.random("filtered-soup", n, 40, |src| {
+        let n = src.below(24);
+        let idx: Vec<usize> = (0..n).map(|_| crate::textgen::soup_token(src)).collect();
+        let mut text = String::new();
+        crate::textgen::join_tokens(&idx, &mut text);
+        let mut rep = CaseReport::default();
+        let judged = check_c03(&text, &mut rep.failures);
+        rep.discarded = !judged;
+        rep.class("filtered-soup");
+        if judged && n > 0 {
+            rep.nontrivial = Some(fnv64(text.as_bytes()));
+            rep.sample = Some(text);
+        }
+        rep
+    });
+    // whole snippets
+    ctx.par_units(snippets.len(), |i, st| {
+        let mut rep = CaseReport::default();
+        let judged = check_c03(&snippets[i], &mut rep.failures);
+        rep.discarded = !judged;
+        rep.class("snippet");
+        rep.nontrivial = Some(fnv64(snippets[i].as_bytes()));
+        ctx.eval_local("C03", st, rep);
+    });
+}
+
+fn extreme_templates() -> Vec<String> {
+    let mut v: Vec<String> = vec![];
+    let big = [
+        "0", "1", "255", "4294967295", "4294967296", "4294967297", "18446744073709551615", "18446744073709551616",
+        "340282366920938463463374607431768211455", "340282366920938463463374607431768211456",
+        "999999999999999999999999999999999999999999999999", "0xFFFFFFFFFFFFFFFFFFFFFFFFFFFFFFFFF", "0b1", "0o7",
+    ];
+    let desig = ["n", "m", "pi", "U", "$0", "-1", "1+1", "f(1)", "2.5", "true", "\"01\"", "10ns", "x", "(3)", "int(3)", "a[0]", "~1", "!1", "1im"];
+    for b in big {
+        v.push(format!("{b};"));
+        v.push(format!("int x = {b};"));
+        v.push(format!("x = {b};"));
+        v.push(format!("int x; x = -{b};"));
+        v.push(format!("int[{b}] x;"));
+        v.push(format!("qubit[{b}] q;"));
+        v.push(format!("bit[{b}] c;"));
+        v.push(format!("const int n = {b}; int[n] x;"));
+        v.push(format!("const uint[8] n = {b}; bit[n] x;"));
+        v.push(format!("float f = {b}.0;"));
+        v.push(format!("duration d = {b}ns;"));
+        v.push(format!("complex[float[{b}]] z;"));
+        v.push(format!("x = int[{b}](1);"));
+        v.push(format!("delay[{b}dt] $0;"));
+        v.push(format!("-{b};"));
+        v.push(format!("-{b}im;"));
+    }
+    for d in desig {
+        v.push(format!("int[{d}] x;"));
+        v.push(format!("const int n = 4; int m = 3; int[{d}] x;"));
+        v.push(format!("qubit[{d}] q;"));
+        v.push(format!("bit[{d}] c;"));
+        v.push(format!("uint[{d}] x = 1;"));
+        v.push(format!("angle[{d}] a;"));
+        v.push(format!("complex[float[{d}]] z;"));
+        v.push(format!("def f(int[{d}] a) {{ }}"));
+        v.push(format!("x = float[{d}](1);"));
+        v.push(format!("for uint[{d}] i in [0:1] {{ }}"));
+        v.push(format!("input int[{d}] x;"));
+    }
+    for f in ["1e999", "1e-999", "1.7976931348623157e308", "1e309", "0.0", "5.", ".5", "1_0.0_1", "1E+2"] {
+        v.push(format!("float x = {f};"));
+        v.push(format!("-{f};"));
+        v.push(format!("{f}im;"));
+        v.push(format!("delay[{f}us] $0;"));
+    }
+    v.push(format!("bit[300] b = \"{}\";", "01".repeat(150)));
+    v.push(format!("\"{}\";", "1".repeat(300)));
+    for s in [
+        "barrier;", "f(1);", "int f; f(1);", "gate g q {} g(1);", "U q;", "int pi;", "const int pi = 3;", "qubit q; q(1);",
+        "const int x = 1; const int x = 2;", "const float[64] y = 1.5; const float[64] y = 2.5; int[y] z;",
+        "int x; x += 1;", "int x; x <<= 1;", "a < b;", "a && b;", "!a;", "~a;", "{ a; }", "{ }", "[a, b];", "box { }",
+        "-10ns;", "-true;", "-\"01\";", "true;", "measure $0;", "reset $0;", "delay[1ns];", "gphase(1);", "ctrl @ gphase(1);",
+        "include \"stdgates.inc\"; include \"stdgates.inc\";", "if (U) @a\nb;", "h[1.5im] = 10ns;", "if (c) box { }", "while (c) { }",
+        "for int i in x { }", "for int i in {1,2} i;", "switch (1) { default { } }", "switch (x) { case 1 { } }", "return;", "return 1;",
+        "def f() { return; } f();", "def f(qubit q) -> bit { return measure q; } bit b = f($0);", "let a = $0;", "let a = b ++ c;",
+        "qubit $0;", "input int x;", "output bit[2] c;", "input array[int, 2] a;", "array[int, 2] a;", "array[int[8], 2, 2] a = {{1,2},{3,4}};",
+        "creg c[2];", "qreg q[2];", "extern f(int) -> int;", "cal { }", "defcal g $0 { }", "defcalgrammar \"openpulse\";",
+        "pragma x", "@a\nint x;", "@a\n@b\n", "@a\n", "end;", "break;", "continue;", "OPENQASM 3;", "OPENQASM 3.0;\nOPENQASM 3.0;",
+        "x = 1;", "x[0] = 1;", "x[0][1] = 1;", "int x; x[0:1] = 1;", "bit[4] b; b[{0,1}] = \"11\";", "qubit[2] q; h q[0:1];",
+        "int x = y;", "int x = x;", "gate g q { g q; }", "def f() { f(); }", "gate g(a) q { U(a, a, a) q; } g(pi) $0;",
+        "duration d = 1ns + 2ns;", "stretch s;", "angle a = pi;", "bool b = true; b = !b;", "complex z = 1 + 2im;", "complex[float] z = 2im * 3;",
+        "int x = int(2.5);", "float y = float[32](1);", "bit b = bit(1);", "x = a ** b;", "x = a % b;", "x = (a | b) ^ c & d;", "x = a << 2 >> 1;",
+        "int[8] y = 1+2;", "const int n = 3; int[8] y = n;", "float f = 2im;", "duration d; d = 1;", "uint u = -1;", "uint u; u = -1;",
+    ] {
+        v.push(s.to_string());
+    }
+    v
+}
+
+// ---------------- C11 gating half ----------------
+
+pub fn check_gating_source(text: &str, out: &mut Vec<Failure>) {
+    // full pipeline on a single source string: syntax diagnostics <=> empty program, no semantic diagnostics
+    let has_syntax = !clean_parse(text);
+    match analyze(text) {
+        Err(p) => {
+            if has_syntax {
+                // a crash while there are syntax errors violates the gate (analysis must not run)
+                out.push(Failure::new(format!("C11:pipeline:{}", panic_key(&p)), json!({"input": {"source": text}, "actual": p.msg})));
+            }
+            // a crash on clean input is C03's subject
+        }
+        Ok(res) => {
+            let mut errs = vec![];
+            all_semantic_errors(res.semantic_errors(), &mut errs);
+            if has_syntax {
+                if !res.any_syntax_errors() {
+                    out.push(Failure::new("C11:pipeline:syntax-errors-not-reported", json!({"input": {"source": text}})));
+                }
+                if !res.program().stmts().is_empty() {
+                    out.push(Failure::new("C11:pipeline:program-not-empty-despite-syntax-errors", json!({"input": {"source": text}, "actual": format!("{} statements", res.program().stmts().len())})));
+                }
+                if !errs.is_empty() {
+                    out.push(Failure::new("C11:pipeline:semantic-diagnostics-despite-syntax-errors", json!({"input": {"source": text}, "actual": format!("{:?}", errs.first())})));
+                }
+            } else if res.any_syntax_errors() {
+                out.push(Failure::new("C11:pipeline:syntax-errors-reported-for-clean-source", json!({"input": {"source": text}})));
+            }
+            let _ = res.syntax_result().num_syntax_errors();
+        }
+    }
+}
+
+pub fn run_gating(ctx: &RunCtx) {
+    // valid programs, or with an injected syntax fault, through the full pipeline
+    let n = ctx.pick(60_000u64, 3_000_000u64);
+    ctx.random("pipeline-gate", n, 900, |src| {
+        let style = [Style::Minimal, Style::Spaced, Style::Wild][src.below(3)];
+        let prog = crate::semgen::gen_program(src, &crate::semgen::Profile::plain());
+        let pr = print_program(src, &prog, style);
+        let mut text = pr.text;
+        let faulty = src.bool();
+        if faulty {
+            text = crate::semprops::inject_syntax_fault(src, &text);
+        }
+        let mut rep = CaseReport::default();
+        check_gating_source(&text, &mut rep.failures);
+        // a valid model with >= 1 translatable statement yields a non-empty program
+        if !faulty && clean_parse(&text) && !prog.is_empty() {
+            if let Ok(res) = analyze(&text) {
+                if res.program().stmts().is_empty() {
+                    rep.fail("C11:pipeline:empty-program-for-valid-source", json!({"input": {"source": text}}));
+                }
+            }
+        }
+        rep.class(if faulty { "syntax-fault" } else { "valid" });
+        rep.nontrivial = Some(fnv64(text.as_bytes()));
+        rep.sample = Some(text);
+        rep
+    });
+    crate::fsprops::run_c11_includes(ctx);
+}
